@@ -1115,14 +1115,14 @@ stream_encoder_mt_init(lzma_next_coder *next, const lzma_allocator *allocator,
 		coder->threads_initialized = 0;
 	}
 
-	// Basic initializations
-	coder->sequence = SEQ_STREAM_HEADER;
-	coder->block_size = (size_t)(block_size);
-	coder->outbuf_alloc_size = (size_t)(outbuf_size_max);
-	coder->thread_error = LZMA_OK;
-	coder->thr = NULL;
-
 	// Allocate the thread-specific base structures.
+	//
+	// This is done before the basic initializations below because
+	// worker threads from an earlier use of this coder may still be
+	// running. They read coder->block_size and may set
+	// coder->thread_error, so those must not be touched before
+	// the threads have been stopped.
+	coder->thr = NULL;
 	assert(options->threads > 0);
 	if (coder->threads_max != options->threads) {
 		threads_end(coder, allocator);
@@ -1145,6 +1145,12 @@ stream_encoder_mt_init(lzma_next_coder *next, const lzma_allocator *allocator,
 		// threads to stop and wait until they have stopped.
 		threads_stop(coder, true);
 	}
+
+	// Basic initializations
+	coder->sequence = SEQ_STREAM_HEADER;
+	coder->block_size = (size_t)(block_size);
+	coder->outbuf_alloc_size = (size_t)(outbuf_size_max);
+	coder->thread_error = LZMA_OK;
 
 	// Output queue
 	return_if_error(lzma_outq_init(&coder->outq, allocator,
